@@ -11,16 +11,16 @@ SIM_NOTE = ("Trusted base: SimNode's model of lightningd (DESIGN 2.2 assumptions
 CHECKS = {
  "C01": ("sim", "exploration", "online monitor over seeded hostile simulations of the real manager/store/provider (runtime monitoring)",
          "R01a SHA256(key)==htlc hash, R01b key comes from a complete part or the Succeeded record, R01c no pay while holding an HTLC with that invoice but another hash; evaluated on every Resolve / pay across 24k (quick) or 1M (thorough) runs with hash-mismatch-heavy plans, crashes and restarts. Held on the executions explored, not a proof.", SIM_NOTE),
- "C02": ("sim", "fault_enumeration", "online monitor at every Fail emission against node ground truth; random hostile schedules plus enumeration of every crash position / single write fault in canonical scenarios",
-         "R02: no trampoline HTLC is failed while a part is pending/complete or pay is running, judged at the instant of emission against SimNode; crashes, restarts, F1 write faults (all tiers), F2 read faults (thorough); plus enumeration of one crash / one write fault at every position of canonical 1-2 HTLC payments for every pay outcome.", SIM_NOTE),
+ "C02": ("sim+e2e", "fault_enumeration", "online monitor at every Fail emission against node ground truth; random hostile schedules plus enumeration of every crash position / single write fault in canonical scenarios",
+         "R02: no trampoline HTLC is failed while a part is pending/complete or pay is running, judged at the instant of emission against SimNode; crashes, restarts, F1 write faults (all tiers), F2 read faults (thorough); plus enumeration of one crash / one write fault at every position of canonical 1-2 HTLC payments for every pay outcome; plus an E2E session through the real rpc.rs in which the pay command runs for 33 s (35/35/65 s thorough) and the HTLC must stay held.", SIM_NOTE + " E2E part trusts the fake lightningd."),
  "C03": ("sim", "exploration", "online monitor at every pay RPC against the set of delivered-unanswered HTLCs (runtime monitoring)",
          "R03a funded in u128, R03b maxfee within held-amount budget, R03c amount/bolt11 parameters, evaluated at every pay issue; fee-boundary +-1 msat plans, 1-8 parts, late extra HTLCs, restarts.", SIM_NOTE),
  "C04": ("sim", "exploration", "online monitor at every pay RPC against held expiries and the heights told to the plugin (runtime monitoring)",
          "R04a maxdelay <= max(0, min expiry - known height - delta) and <= policy delta using the loosest sound snapshot; R04b low-expiry HTLC before funding rejects the set; heights advance during collection, real BlockWatcher in the loop.", SIM_NOTE),
  "C05": ("sim+e2e", "fault_enumeration", "online monitor at every pay RPC against the sendpay table; random schedules plus crash/fault position enumeration",
-         "R05: no pay while a part of the hash is pending/complete or another pay runs, for overlapping lifecycles, every crash position around the two attempt writes and pay, every stored history at restart; plus E2E crash sessions (real binary SIGKILLed after RPC effect k, restarted against the surviving node state) judged on the node's own state.", SIM_NOTE + " E2E part trusts the fake lightningd."),
+         "R05: no pay while a part of the hash is pending/complete or another pay runs, for overlapping lifecycles, every crash position around the two attempt writes and pay, every stored history at restart; plus E2E crash sessions (real binary SIGKILLed after RPC effect k, restarted against the surviving node state) judged on the node's own state, and sessions in which the RPC connection dies after pay was accepted (no second pay may follow).", SIM_NOTE + " E2E part trusts the fake lightningd."),
  "C06": ("sim+e2e", "exploration", "panic hook + reply accounting + bounded-liveness monitor in virtual time; real binary under a fake lightningd for the process-level half",
-         "R06a exactly one well-formed answer, R06b no panic, R06c nothing unanswered after the environment is drained and the clock is past 10x mpp timeout, R06d table lock free at every quiescence; hostile payload/metadata bytes and numeric extremes. 'Eventually' is decided only as this bounded statement.", SIM_NOTE + " E2E part trusts the fake lightningd's framing."),
+         "R06a exactly one well-formed answer, R06b no panic, R06c nothing unanswered after the environment is drained and the clock is past 10x mpp timeout, R06d table lock free at every quiescence; hostile payload/metadata bytes and numeric extremes; E2E: 120 (3000 thorough) sessions of hostile requests against the real binary, thorough also 60 under valgrind memcheck and 400 against an AddressSanitizer build (supplementary). 'Eventually' is decided only as this bounded statement; wall clock only via the ping rule.", SIM_NOTE + " E2E part trusts the fake lightningd's framing."),
  "C07": ("sim", "exploration", "window monitor over answers per payment hash (runtime monitoring)",
          "R07a identical answers, R07b no member of the set left unanswered, R07c a rejecting HTLC in a still-incomplete set means no pay and Fail for all; rejecting HTLC at every position/phase including while the stored state is being fetched.", SIM_NOTE),
  "C08": ("sim+e2e", "fault_enumeration", "state invariant evaluated after every node state change (each a crash image), durable record read through the plugin's own store",
@@ -28,7 +28,7 @@ CHECKS = {
  "C09": ("sim+e2e", "fault_enumeration", "probe payments after every explored crash/fault history (recovery oracle)",
          "R09: after every explored history (random multi-crash/multi-fault, and the enumeration of one crash at every step and one write fault of either kind at every write), a restart (or none: same-process mode) plus up to three fully funded probe sets in a cooperative environment must settle, with the stored attempt left recent or aged beyond the MPP timeout; repeated with the real binary killed after RPC effect k.", SIM_NOTE + " E2E part trusts the fake lightningd."),
  "C10": ("sim", "exploration", "reference classifier derived from how each request was built vs observed classification",
-         "R10: observed classification (continue / fail-at-classification / held as trampoline with pay bolt11+amount) equals the reference over the invoice x signature x hints x hash x amount-field x flag product.", SIM_NOTE),
+         "R10: observed classification (continue / fail-at-classification / held as trampoline with pay bolt11+amount) equals the reference over the invoice x signature x hints x hash x amount-field x flag product (3200 cases enumerated, plus random runs); the payee reported on payment failure equals the key the signature verifies against.", SIM_NOTE),
  "C11": ("sim", "exploration", "virtual-time monitor on Fail timestamps relative to the stored-state read",
          "R11a incomplete sets get 0x2019 and no pay; R11b not before read+mpp; R11c not later than read+mpp+5ms; R11d restart grants at most one further timeout (aged stored histories).", SIM_NOTE + " Wall clock inside the plugin only enters R11d (tolerance 1 s + run wall time)."),
  "C12": ("pure+sim", "exploration", "reference oracle (u128 predicate) over boundary cross product and frontier-biased random inputs in debug, release and Miri builds; SIM monitor for the failure bytes",
